@@ -37,6 +37,14 @@ def time_grid(rng, tier, kind=None):
     if kind == "deceptive":
         # uneven, but its end points look like an even grid: last - first == first step * (n - 1)
         n = int(rng.integers(4, nmax + 1))
+        if rng.random() < 0.35:
+            # fractional time items with uneven steps that span exactly n - 1 years (first and last look like consecutive years)
+            for _ in range(50):
+                cuts = sorted(set((rng.integers(1, 2 * (n - 1), size=n - 2) / 2.0).tolist()))
+                if len(cuts) == n - 2:
+                    items = [0.0] + cuts + [float(n - 1)]
+                    if len(set(np.diff(items).tolist())) > 1:
+                        return [2000.0 + x for x in items], "uneven"
         step0 = int(rng.integers(2, 7))
         total = step0 * (n - 1)
         for _ in range(50):
@@ -254,6 +262,11 @@ def make_stock(fd, cfg, cls_name, solver=None, lm=None, inflow=None, stock=None)
         kw["inflow"] = fd.StockArray(dims=dims, values=_as_given(inflow, cfg.get("layout")))
     if stock is not None:
         kw["stock"] = fd.StockArray(dims=dims, values=_as_given(stock, cfg.get("layout")))
+    if cfg.get("layout", "C") != "C" and len(cfg["shape"]) >= 2:
+        # the arrays compute() is to fill are the user's own too (a first guess, a pre-allocated block): same memory layout as the data
+        for q_ in ("stock", "inflow", "outflow"):
+            if q_ not in kw and not (cls_name == "SimpleFlowDrivenStock" and q_ == "outflow"):
+                kw[q_] = fd.StockArray(dims=dims, values=_as_given(np.full(cfg["shape"], 7.0), cfg["layout"]))
     return cls(**kw)
 
 
@@ -321,6 +334,22 @@ def c10_case(rec, hub, rng, tier):
                 cmp(tag + ":outflow", Q["outflow"], R["outflow"], "stock-driven-outflow-differs", scale=max(float(np.max(np.abs(x))), 1e-300))
                 cmp(tag + ":stock_by_cohort", Q["stock_by_cohort"], R["stock_by_cohort"], "stock-driven-stock-by-cohort-differs", scale=max(float(np.max(np.abs(R["stock"]))), 1e-300))
                 cmp(tag + ":outflow_by_cohort", Q["outflow_by_cohort"], R["outflow_by_cohort"], "stock-driven-outflow-by-cohort-differs", scale=max(float(np.max(np.abs(x))), 1e-300))
+        # the conversion helper: the inflow-driven model turned into a stock-driven one of the same lifetime model and settings
+        idm_c = make_stock(fd, cfg, "InflowDrivenDSM", lm=build_lm(fd, cfg), inflow=x)
+        idm_c.compute()
+        Rc = S.results_of(idm_c)
+        solver_c = str(rng.choice(["manual", "lapack"]))
+        try:
+            sd_c = idm_c.to_stock_type(fd.StockDrivenDSM, solver=solver_c)
+            sd_c.inflow.values[...] = 0.0 if sd_c.inflow is not idm_c.inflow else sd_c.inflow.values  # where it has arrays of its own, they start empty
+            sd_c.compute()
+            Qc = S.results_of(sd_c)
+            tag = f"ID->to_stock_type->SD/{solver_c}"
+            cmp(tag + ":inflow", Qc["inflow"], x, "converted-stock-driven-model-does-not-return-the-inflow", scale=max(float(np.max(np.abs(x))), 1e-300))
+            cmp(tag + ":outflow", Qc["outflow"], Rc["outflow"], "converted-stock-driven-outflow-differs", scale=max(float(np.max(np.abs(x))), 1e-300))
+            cmp(tag + ":stock_by_cohort", Qc["stock_by_cohort"], Rc["stock_by_cohort"], "converted-stock-driven-stock-by-cohort-differs", scale=max(float(np.max(np.abs(Rc["stock"]))), 1e-300))
+        except Exception as e:
+            rec.violation(M10, "to_stock_type-or-compute-of-the-converted-model-raised", dict(model=cfg["model"], solver=solver_c, exc=repr(e)[:200]))
         # the same object once more, a previously non-zero year of its inflow now exactly zero: the stock-driven inverse still agrees
         if nt > 3:
             x2 = np.array(x, dtype=float)
